@@ -184,6 +184,23 @@ class IterV(V):
         return 'IterV(%d/%d)' % (self.pos, len(self.items))
 
 
+class CycleV(V):
+    """itertools.cycle over known items: endless; consumed position by position by zip / islice / next"""
+    __slots__ = ('items', 'pos')
+
+    def __init__(self, items):
+        self.items = list(items)
+        self.pos = 0
+
+    def take(self, n):
+        out = [self.items[(self.pos + i) % len(self.items)] for i in range(n)]
+        self.pos += n
+        return out
+
+    def __repr__(self):
+        return 'cycle(%s)' % ','.join(_prov(x) for x in self.items)
+
+
 class PartialV(V):
     """functools.partial(func, *args, **kwargs)"""
     __slots__ = ('func', 'args', 'kwargs')
@@ -331,11 +348,16 @@ def _matching_handler(handlers, exc):
             return h
         names = [src(e) for e in (h.type.elts if isinstance(h.type, ast.Tuple) else [h.type])]
         classes = [getattr(builtins, n_, None) for n_ in names]
-        if not (isinstance(raised, type) and issubclass(raised, BaseException)) or \
-                any(not (isinstance(c, type) and issubclass(c, BaseException)) for c in classes):
-            return h
-        if any(issubclass(raised, c) for c in classes):
-            return h
+        known_raised = isinstance(raised, type) and issubclass(raised, BaseException)
+        known_classes = all(isinstance(c, type) and issubclass(c, BaseException) for c in classes)
+        if known_raised and known_classes:
+            if any(issubclass(raised, c) for c in classes):
+                return h
+            continue
+        if not known_raised and known_classes and any(c in (Exception, BaseException) for c in classes):
+            return h        # an exception of a class outside the builtins: assumed to derive from Exception
+        # a class of the raised exception or of the handler that is not a builtin: whether it matches is not known
+        raise Undecided('whether "except %s" catches %s' % (', '.join(names), (exc.what or '')[:40]))
     return None
 
 
@@ -630,7 +652,23 @@ class Interp:
         elif isinstance(st, ast.Raise):
             if isinstance(st.exc, ast.Name) and isinstance(fr.lookup(st.exc.id), ExcV):
                 raise Raised(fr.lookup(st.exc.id).what, st.lineno)
-            raise Raised(src(st.exc) if st.exc is not None else 're-raise', st.lineno)
+            if st.exc is None:
+                cur_ = getattr(fr, 'handling', None)
+                f_ = fr
+                while cur_ is None and f_ is not None:
+                    cur_ = getattr(f_, 'handling', None)
+                    f_ = f_.parent
+                raise Raised(cur_ if cur_ is not None else 're-raise', st.lineno)
+            what_ = src(st.exc)
+            callee_ = st.exc.func if isinstance(st.exc, ast.Call) else st.exc
+            if isinstance(callee_, ast.Name):
+                cv_ = fr.lookup(callee_.id)
+                if isinstance(cv_, (TypeV, Prim)) and cv_.name != callee_.id:
+                    # ``raise exc_class(...)`` through a variable: the class that is raised is the value, not the spelling
+                    what_ = cv_.name + what_[len(callee_.id):]
+                elif isinstance(cv_, ExcV):
+                    what_ = cv_.what
+            raise Raised(what_, st.lineno)
         elif isinstance(st, ast.Try):
             # the finally block runs on every way out: normal completion, return / break / continue, an exception that is
             # handled, one that is not, and one raised by a handler (Undecided / PathLimit abort the analysis and skip it)
@@ -643,7 +681,12 @@ class Interp:
                         raise
                     if h.name:
                         fr.vars[h.name] = ExcV(exc_.what) if getattr(self, 'concrete_context', False) else Sym('exc')
-                    self.exec_block(h.body, fr)
+                    saved_h_ = getattr(fr, 'handling', None)
+                    fr.handling = exc_.what
+                    try:
+                        self.exec_block(h.body, fr)
+                    finally:
+                        fr.handling = saved_h_
                 else:
                     self.exec_block(st.orelse, fr)
             except (Raised, _Return, _Break, _Continue):
@@ -965,7 +1008,20 @@ class Interp:
         return ListV(self._elts(n.elts, fr))
 
     def e_Set(self, n, fr):
+        if getattr(self, 'concrete_context', False):
+            out = SetV([])
+            for x in self._elts(n.elts, fr):
+                if not any(self._known_eq(x, y) is True for y in out.items):
+                    if any(self._known_eq(x, y) is None for y in out.items):
+                        raise Undecided('set display with elements of unknown equality (line %d)' % n.lineno)
+                    out.items.append(x)
+            return out
         return TupleV(self._elts(n.elts, fr))
+
+    def e_NamedExpr(self, n, fr):
+        v = self.eval(n.value, fr)
+        self.assign(n.target, v, fr)
+        return v
 
     def _elts(self, elts, fr):
         out = []
@@ -1016,16 +1072,21 @@ class Interp:
         return self.eval(n.orelse, fr)
 
     def e_BoolOp(self, n, fr):
+        # ``a or b`` / ``a and b`` evaluate to one of their operands (not to a bool): ``x or {}``, ``v and v[0]``
         is_and = isinstance(n.op, ast.And)
         last = None
         for v in n.values:
             last = self.eval(v, fr)
             t = self.truth(last, v)
             if is_and and not t:
-                return last if isinstance(last, Const) else FALSE
+                # the falsy operand itself; a symbolic one is known to be falsy, nothing more
+                return last if not isinstance(last, (Sym, SymStr)) else FALSE
             if (not is_and) and t:
-                return last if isinstance(last, Const) else (last if not isinstance(last, (Sym, SymStr)) else TRUE)
-        return last if isinstance(last, Const) else (TRUE if is_and else FALSE)
+                return last if not isinstance(last, (Sym, SymStr)) else TRUE
+        if isinstance(last, (Sym, SymStr)):
+            # the last operand decides: truthy for ``and`` (all were truthy), falsy for ``or`` (all were falsy)
+            return TRUE if is_and else FALSE
+        return last
 
     def e_UnaryOp(self, n, fr):
         v = self.eval(n.operand, fr)
@@ -1053,8 +1114,16 @@ class Interp:
                     return Const(l.v // r.v)
                 if op is ast.Div and getattr(self, 'concrete_context', False):
                     return Const(l.v / r.v)
+                if getattr(self, 'concrete_context', False):
+                    import operator as _op
+                    fn_ = {ast.Pow: _op.pow, ast.LShift: _op.lshift, ast.RShift: _op.rshift, ast.BitAnd: _op.and_, ast.BitOr: _op.or_,
+                           ast.BitXor: _op.xor}.get(op)
+                    if fn_ is not None and not (op is ast.Pow and isinstance(r.v, int) and abs(r.v) > 64):
+                        return Const(fn_(l.v, r.v))
             except ZeroDivisionError as e:
                 raise Raised('ZeroDivisionError: %s' % e, getattr(n, 'lineno', 0))
+            except TypeError as e:
+                raise Raised('TypeError: %s' % e, getattr(n, 'lineno', 0))
             except Exception:
                 raise Undecided('constant arithmetic failed at line %s' % getattr(n, 'lineno', '?'))
         if op is ast.Add and isinstance(l, (ListV, TupleV)) and isinstance(r, (ListV, TupleV)):
@@ -1124,7 +1193,7 @@ class Interp:
                     return False
             return self.decide('%s in %s' % (_prov(l), _prov(r)))
         if op in (ast.Is, ast.Eq):
-            k = self._known_eq(l, r)
+            k = self._known_is(l, r) if op is ast.Is else self._known_eq(l, r)
             if k is not None:
                 return k
             a, b = sorted([_prov(l), _prov(r)])
@@ -1144,15 +1213,38 @@ class Interp:
             sym = '<' if sym == '>' else '<='
         return self.decide('%s %s %s' % (_prov(l), sym, _prov(r)))
 
+    def _known_is(self, l, r):
+        """``l is r``: identity for objects with identity, the singletons None / True / False by value, other constants of the same
+        type and value as one object (small ints, interned strings, module constants compared with themselves)"""
+        if isinstance(l, (ListV, DictV, SetV, ObjV, OpaqueV, IterV, PartialV, ExcV)) or isinstance(r, (ListV, DictV, SetV, ObjV, OpaqueV, IterV, PartialV, ExcV)):
+            if isinstance(l, (Sym, SymStr, ValueV)) or isinstance(r, (Sym, SymStr, ValueV)):
+                return None
+            return l is r
+        if isinstance(l, Const) and isinstance(r, Const):
+            if l.v is None or r.v is None or isinstance(l.v, bool) or isinstance(r.v, bool):
+                return l.v is r.v
+            return type(l.v) is type(r.v) and l.v == r.v
+        return self._known_eq(l, r)
+
     def _known_eq(self, l, r):
         if isinstance(l, OpaqueV) or isinstance(r, OpaqueV):
             if isinstance(l, (Sym, SymStr)) or isinstance(r, (Sym, SymStr)):
                 return None
             return l is r
         if isinstance(l, Const) and isinstance(r, Const):
-            if l.v is None or r.v is None or isinstance(l.v, bool) or isinstance(r.v, bool):
-                return l.v is r.v
-            return l.v == r.v
+            try:
+                return bool(l.v == r.v)
+            except Exception:
+                return None
+        if isinstance(l, ListV) and isinstance(r, ListV) and not getattr(l, 'lazy', False) and not getattr(r, 'lazy', False):
+            if len(l.items) != len(r.items):
+                return False
+            ks = [self._known_eq(a, b) for a, b in zip(l.items, r.items)]
+            if any(k is False for k in ks):
+                return False
+            return True if all(k is True for k in ks) else None
+        if (isinstance(l, ListV) and isinstance(r, TupleV)) or (isinstance(l, TupleV) and isinstance(r, ListV)):
+            return False
         if isinstance(l, TypeV) and isinstance(r, TypeV):
             return l.name == r.name
         if isinstance(l, PartialV) or isinstance(r, PartialV):
@@ -1242,7 +1334,17 @@ class Interp:
         return ListV(self._comp(n, fr))
 
     def e_SetComp(self, n, fr):
-        return ListV(self._comp(n, fr))
+        if not getattr(self, 'concrete_context', False):
+            return ListV(self._comp(n, fr))
+        out = SetV([])
+        for x in self._comp(n, fr):
+            ks = [self._known_eq(x, y) for y in out.items]
+            if any(k_ is True for k_ in ks):
+                continue
+            if any(k_ is None for k_ in ks):
+                raise Undecided('set comprehension with elements of unknown equality (line %d)' % n.lineno)
+            out.items.append(x)
+        return out
 
     def _comp(self, n, fr):
         out = []
@@ -1296,7 +1398,7 @@ class Interp:
             return bool(v.v)
         if isinstance(v, (ListV, TupleV, SetV, DictV)):
             return len(v.items) > 0
-        if isinstance(v, (DocV, CtxV, FuncV, Prim, TypeV, AnnotV, BoundV, ObjV, PartialV, ExcV, IterV, OpaqueV)):
+        if isinstance(v, (DocV, CtxV, FuncV, Prim, TypeV, AnnotV, BoundV, ObjV, PartialV, ExcV, IterV, OpaqueV, CycleV)):
             return True
         if isinstance(v, SymStr):
             if v.nonempty is True:
@@ -1311,6 +1413,8 @@ class Interp:
         raise Undecided('truth of %r' % (v,))
 
     def iterate(self, v, node=None):
+        if isinstance(v, CycleV):
+            raise Undecided('iteration over an endless cycle (line %s)' % getattr(node, 'lineno', '?'))
         if isinstance(v, IterV):
             rest = v.items[v.pos:]
             v.pos = len(v.items)
@@ -1635,6 +1739,28 @@ class Interp:
             if not args:
                 return SetV([])
             return SetV(self.iterate(args[0], node))
+        if name in ('dict', 'OrderedDict', 'defaultdict') and getattr(self, 'concrete_context', False) and not (name == 'defaultdict' and args):
+            # a new mapping: copy of a mapping / pairs of an iterable, then the keyword items
+            d_ = DictV([])
+            if args:
+                if isinstance(args[0], DictV):
+                    for k_, v_ in args[0].items:
+                        d_.set(k_, v_)
+                elif isinstance(args[0], (Sym, SymStr)) or (isinstance(args[0], ValueV) and args[0].elems is None):
+                    return Sym('%s(%s)' % (name, _prov(args[0])))
+                else:
+                    for pair_ in self.iterate(args[0], node):
+                        kv_ = self.iterate(pair_, node)
+                        if len(kv_) != 2:
+                            raise Raised('ValueError: dictionary update sequence element has length %d; 2 is required' % len(kv_), getattr(node, 'lineno', 0))
+                        d_.set(kv_[0], kv_[1])
+            for k_, v_ in kwargs.items():
+                if k_.startswith('**'):
+                    raise Undecided('dict(**symbolic)')
+                d_.set(Const(k_), v_)
+            return d_
+        if name == 'frozenset' and getattr(self, 'concrete_context', False):
+            return SetV(self.iterate(args[0], node)) if args else SetV([])
         if name in ('dict', 'OrderedDict', 'set', 'frozenset'):
             if not args:
                 return TupleV([]) if not getattr(self, 'concrete_context', False) else DictV([])
@@ -1847,19 +1973,46 @@ class Interp:
         return Const(isinstance(a[0], (FuncV, Prim, TypeV, PartialV)) or (isinstance(a[0], Sym) and a[0].typ == 'callable'))
 
     def p_enumerate(self, a, k, n):
-        return ListV([TupleV([Const(i), x]) for i, x in enumerate(self.iterate(a[0], n))], lazy=bool(getattr(self, 'concrete_context', False)))
+        start = a[1] if len(a) > 1 else k.get('start', Const(0))
+        if not (isinstance(start, Const) and isinstance(start.v, int)):
+            raise Undecided('enumerate with a symbolic start')
+        return ListV([TupleV([Const(i), x]) for i, x in enumerate(self.iterate(a[0], n), start.v)], lazy=bool(getattr(self, 'concrete_context', False)))
+
+    def p_range(self, a, k, n):
+        if not all(isinstance(x, Const) and isinstance(x.v, int) for x in a) or not 1 <= len(a) <= 3:
+            raise Undecided('range over symbolic bounds (line %s)' % getattr(n, 'lineno', '?'))
+        r_ = range(*[x.v for x in a])
+        if len(r_) > 5000:
+            raise Undecided('range of %d elements' % len(r_))
+        return ListV([Const(i) for i in r_])
+
+    def p_takewhile(self, a, k, n):
+        out = []
+        for x in self.iterate(a[1], n):
+            if not self.truth(self.call_function(a[0], [x], {}, n), n):
+                break
+            out.append(x)
+        return ListV(out)
 
     def p_zip(self, a, k, n):
         seqs = []
         for x in a:
             if isinstance(x, Sym) and x.prov.startswith('cycle('):
                 seqs.append(None)
+            elif isinstance(x, CycleV):
+                seqs.append(x)
             else:
                 seqs.append(self.iterate(x, n))
-        m = min(len(s) for s in seqs if s is not None)
+        known_ = [len(s) for s in seqs if s is not None and not isinstance(s, CycleV)]
+        if not known_:
+            if seqs:
+                raise Undecided('zip over endless iterators only')
+            return ListV([])
+        m = min(known_)
         out = []
+        cyc_ = {id(s): s.take(m) for s in seqs if isinstance(s, CycleV)}
         for i in range(m):
-            out.append(TupleV([s[i] if s is not None else Sym('cycle-item') for s in seqs]))
+            out.append(TupleV([cyc_[id(s)][i] if isinstance(s, CycleV) else (s[i] if s is not None else Sym('cycle-item')) for s in seqs]))
         return ListV(out, lazy=bool(getattr(self, "concrete_context", False)))
 
     def p_reversed(self, a, k, n):
@@ -1871,6 +2024,32 @@ class Interp:
         items = self.iterate(a[0], n)
         if len(items) <= 1:
             return ListV(items)
+        if getattr(self, 'concrete_context', False) and isinstance(k, dict) and set(k) <= {'key', 'reverse'}:
+            rev_ = k.get('reverse', FALSE)
+            keyf_ = k.get('key')
+            if isinstance(rev_, Const) and (keyf_ is None or (isinstance(keyf_, Const) and keyf_.v is None) or
+                                            isinstance(keyf_, (FuncV, Prim, TypeV, PartialV, BoundV))):
+                if keyf_ is not None and not isinstance(keyf_, Const):
+                    keys_ = [self.call_function(keyf_, [x], {}, n) for x in items]
+                else:
+                    keys_ = items
+
+                def plain_(v_):
+                    if isinstance(v_, Const):
+                        return v_.v
+                    if isinstance(v_, TupleV):
+                        return tuple(plain_(y_) for y_ in v_.items)
+                    if isinstance(v_, ListV) and not getattr(v_, 'lazy', False):
+                        return [plain_(y_) for y_ in v_.items]
+                    raise Undecided('sort key %r' % (v_,))
+                try:
+                    pk_ = [plain_(x) for x in keys_]
+                    order_ = sorted(range(len(items)), key=lambda i_: pk_[i_], reverse=bool(rev_.v))
+                    return ListV([items[i_] for i_ in order_])
+                except Undecided:
+                    pass
+                except TypeError as e:
+                    raise Raised('TypeError: %s' % e, getattr(n, 'lineno', 0))
         tag = ','.join(_prov(x) for x in items)
         extra = ';'.join('%s=%s' % (kk, _prov(vv)) for kk, vv in sorted(k.items())) if isinstance(k, dict) else ''
         if extra:
@@ -1894,6 +2073,8 @@ class Interp:
             if len(a) > 1:
                 return a[1]
             raise Raised('StopIteration', getattr(n, 'lineno', 0))
+        if isinstance(it_, CycleV):
+            return it_.take(1)[0]
         if isinstance(it_, IterV):
             if it_.pos < len(it_.items):
                 it_.pos += 1
@@ -1919,7 +2100,18 @@ class Interp:
         return ListV(self.iterate(a[1], n))
 
     def p_islice(self, a, k, n):
-        return ListV(self.iterate(a[0], n))
+        if not getattr(self, 'concrete_context', False):
+            return ListV(self.iterate(a[0], n))
+        bounds = [x.v if isinstance(x, Const) else Ellipsis for x in a[1:]]
+        if Ellipsis in bounds or not 1 <= len(bounds) <= 3 or any(b is not None and not isinstance(b, int) for b in bounds):
+            raise Undecided('islice with symbolic bounds (line %s)' % getattr(n, 'lineno', '?'))
+        sl = slice(*bounds)
+        if isinstance(a[0], CycleV):
+            if sl.stop is None:
+                raise Undecided('islice of an endless iterator without a stop')
+            return ListV(a[0].take(sl.stop)[sl])
+        items = self.iterate(a[0], n)
+        return ListV(items[sl])
 
     def p_intersperse(self, a, k, n):
         items = self.iterate(a[1], n)
@@ -1977,7 +2169,7 @@ class Interp:
 
     def p_cycle(self, a, k, n):
         if getattr(self, 'concrete_context', False) and isinstance(a[0], (ListV, TupleV)) and a[0].items:
-            return ListV(list(a[0].items) * 64)      # long enough for every small-scope zip
+            return CycleV(a[0].items)
         return Sym('cycle(%s)' % _prov(a[0]))
 
     def p_getattr(self, a, k, n):
